@@ -5,6 +5,7 @@ import (
 	"errors"
 	"fmt"
 	"math"
+	"math/big"
 	"strconv"
 	"strings"
 )
@@ -51,10 +52,12 @@ func jsonToString(value any) (string, error) {
 	switch v := value.(type) {
 	// we might want to disallow this completely
 	case float64:
-		if math.Floor(v) != v {
+		if math.Floor(v) != v || math.IsInf(v, 0) {
 			return "", errors.New("numbers with decimals are not allowed")
 		}
-		return strconv.FormatInt(int64(v), 10), nil
+		// exact for every integral float64 (int64(v) is out of range from 2^63 on), as resolveValue does
+		bigInt, _ := new(big.Float).SetFloat64(v).Int(nil)
+		return bigInt.String(), nil
 	case json.Number:
 		return string(v), nil
 	case string:
